@@ -377,18 +377,21 @@ def _validate_url(url: str, validator: Callable[[str], None] | None) -> None:
         return
     try:
         validator(url)
+        return
     except Exception as exc:
         # Preserve useful, historically exposed validator diagnostics while
         # ensuring a callback that interpolates the input URL cannot leak its
-        # credentials into an RPC error.  Suppress the original exception so
-        # its args do not survive in ``__context__``.
+        # credentials into an RPC error.
         message = str(exc).replace(url, redact_url(url))
         parsed = urlparse(url)
         secrets = [parsed.username, parsed.password, *(value for _, value in parse_qsl(parsed.query))]
         for secret in secrets:
             if secret:
                 message = message.replace(secret, "<redacted>")
-        raise ValueError(f"ExternalLocation URL rejected: {message}") from None
+    # Raised after the ``except`` block on purpose: ``raise ... from None``
+    # inside it only hides the original exception from tracebacks; its args
+    # (the un-redacted URL) would stay reachable through ``__context__``.
+    raise ValueError(f"ExternalLocation URL rejected: {message}")
 
 
 @asynccontextmanager
@@ -402,6 +405,8 @@ async def _request_following_redirects(
     headers: Mapping[str, str] | None = None,
 ) -> AsyncIterator[aiohttp.ClientResponse]:
     """Issue one request, manually validating and bounding every redirect."""
+    import aiohttp as _aiohttp
+
     current_url = url
     response: aiohttp.ClientResponse | None = None
     try:
@@ -412,16 +417,15 @@ async def _request_following_redirects(
                     response = await client.head(current_url, headers=headers, allow_redirects=False)
                 else:
                     response = await client.get(current_url, headers=headers, allow_redirects=False)
-            except (TimeoutError, ConnectionResetError):
+            except (TimeoutError, ConnectionResetError, _aiohttp.ServerDisconnectedError):
                 raise
-            except Exception as exc:
-                import aiohttp as _aiohttp
-
-                if isinstance(exc, _aiohttp.ServerDisconnectedError):
-                    raise
-                raise _aiohttp.ClientConnectionError(
-                    f"ExternalLocation {method} failed for {redact_url(current_url)}"
-                ) from None
+            except Exception:
+                # Replaced below, outside this block: an exception raised in
+                # here (even ``from None``) would keep the original, whose
+                # text can hold the signed URL, reachable via ``__context__``.
+                response = None
+            if response is None:
+                raise _aiohttp.ClientConnectionError(f"ExternalLocation {method} failed for {redact_url(current_url)}")
 
             if response.status not in _REDIRECT_STATUSES:
                 yield response
